@@ -10,6 +10,7 @@ import ALV.Lemmas.C06TwoCalls
 import ALV.Lemmas.C06TwoCallsFull
 import ALV.Lemmas.C06Expr
 import ALV.Lemmas.C06Hub
+import ALV.Lemmas.C06Src
 import ALV.Common.Audit
 
 set_option linter.unusedSectionVars false
@@ -868,6 +869,56 @@ example := hub_reads_once (fun _ => (⟨[1/2, 1/2, 1/2], false⟩ : Src ℚ)) 0 
   (by intro c hc; simp at hc; rcases hc with rfl | rfl <;> simp [HC.Owned, It.Owned])
   (by intro i; simp only [occR, HC.occ, It.occ]; split <;> split <;> omega)
   ⟨0, by simp [occR, HC.occ, It.occ]⟩
+
+/-! ### C06.13 the hub programs REGENERATED FROM THE SOURCE are the hand-written hub model
+
+`harness/props/c06_tr.py` reads the bodies of `Poly.__mul__`, `Poly.__truediv__` (`lazy_poly.py`) and the
+block under `if isinstance(self.denpoly[0], Stream)` of `LinearFilter.__call__` (`lazy_filters.py`) with
+`ast` on every run and writes them as the Lean definitions `ALV.Gen.C06.mulHub / divHub / divTermHub /
+gainHub` (`ALV/Gen/C06Src.lean`) in the vocabulary of `ALV/Model/C06HubSrc.lean`, in which a hub KNOWS the
+number of copies the source allocates it with (`thub(v, len(other._data))`) and using it once more is
+`none` (IndexError).  The theorems below say that what the source says NOW is the hand-written model
+every C06.12 theorem is about — and that no hub ever runs out of copies. -/
+
+/-- **C06.13a** (`src_mulHub_is_model`): the regenerated `Poly.__mul__` — hubs of `self` allocated first
+with `len(other._data)` copies, then those of `other` with `len(self._data)`, the double loop, `k1 + k2`,
+`v1 * v2`, `+=` on a key that is there — never exhausts a hub and is `mulHub`. -/
+theorem src_mulHub_is_model :
+    (ALV.Gen.C06.mulHub : HPoly K → HPoly K → Nat → Option (HPoly K × Nat))
+      = fun p q g => some (mulHub p q g) := by
+  funext p q g; exact ALV.Gen.C06.mulHub_eq p q g
+
+/-- **C06.13b** (`src_divHub_is_model`): the regenerated `Poly.__truediv__` by a number / Stream — one hub
+of `len(self)` copies, coefficient `j` divided by copy `j` — is `divHub`. -/
+theorem src_divHub_is_model :
+    (ALV.Gen.C06.divHub : HPoly K → HC K → Nat → Option (HPoly K × Nat))
+      = fun p c g => some (divHub p c g) := by
+  funext p c g; exact ALV.Gen.C06.divHub_eq p c g
+
+/-- **C06.13c** (`src_divTermHub_is_model`): the regenerated branch for a one-term Poly divisor
+`value * x^delta` (the D25 repair: the Stream goes through a hub of `len(self)` copies) is `divHub` on the
+powers lowered by `delta`. -/
+theorem src_divTermHub_is_model :
+    (ALV.Gen.C06.divTermHub : HPoly K → Int → HC K → Nat → Option (HPoly K × Nat))
+      = fun p delta c g => some (divHub (p.map fun kv => (kv.1 - delta, kv.2)) c g) := by
+  funext p delta c g
+  rw [ALV.Gen.C06.divTermHub_eq, ALV.Gen.C06.divHub_eq]
+
+/-- **C06.13d** (`src_gainHub_is_model`): the regenerated Stream-gain block of `LinearFilter.__call__`
+(`den = Poly(self.denpoly); inv_gain = 1 / den[0]; den[0] = 0; den *= inv_gain.copy(); den[0] = 1;
+ZFilter(self.numpoly * inv_gain, den)`, statement by statement, with the regenerated `__mul__`) is
+`gainHub`, whenever `den[0]` is a Stream (the guard of the block). -/
+theorem src_gainHub_is_model (num den : HPoly K) (e0 : It K) (g : Nat) (h0 : findC den 0 = .s e0) :
+    ALV.Gen.C06.gainHub num den g = some (gainHub num den e0 g) :=
+  ALV.Gen.C06.gainHub_eq num den e0 g h0
+
+/-- non-vacuity: `(1 + z^-1) / Stream`-shaped denominator `s + 2 z^-1` goes through the regenerated block -/
+example : findC [((0 : Int), HC.s (It.src 0)), (1, HC.c (2 : Rat))] 0 = .s (It.src 0) := by decide +kernel
+example : (ALV.Gen.C06.gainHub [((0 : Int), HC.c (1 : Rat))] [(0, HC.s (It.src 0)), (1, HC.c 2)] 0).map (·.2.1)
+    = some [(1, HC.s (.bl .mul 2 (.tee 1 0 (.tee 0 1 (.bl .div 1 (.src 0)))))), (0, HC.c 1)] := by
+  decide +kernel
+/-- the count matters: a hub of one copy asked twice is `none` (IndexError) -/
+example : (thubN (HC.s (It.src 0) : HC Rat) 1 0).1 1 = none := by decide +kernel
 
 end hub
 
